@@ -131,6 +131,7 @@ fn run_tokens(toks: &[&str]) -> String {
         "RT" => chan_bundle::rt(args),
         "RTV" => chan_bundle::rtv(args),
         "RTBIG" => chan_bundle::rtbig(args),
+        "SERDE" => chan_bundle::serde(args),
         "SPEC" => chan_bundle::spec(args),
         "SPECX" => chan_bundle::spec(args), // megabyte-sized blocks: implementation only (the model answers NA), judged against the reference encoder
         "DECRT" => chan_bundle::decrt(args),
